@@ -65,8 +65,17 @@ class C05(Property):
         multi.max_meta = 4
         multi.long_text = 2000
         from hypothesis import strategies as st
+        from vf.core import stratified
+
+        def with_kind(kind):
+            p = profile()
+            p.must_kind = kind
+            return file_specs(p)
+        # half of the budget: one stratum per object type, so that no type's attributes depend on how the metadata kinds
+        # happen to be spread
         return [('metadata', st.one_of(file_specs(profile()), file_specs(profile()), file_specs(profile()),
-                                       file_specs(multi)), n // ctx.nshards)]
+                                       file_specs(multi)), (n // 2) // ctx.nshards)] + \
+            stratified('type', with_kind, ALL_META + ('no_format',), n // 2, ctx)
 
     def run(self, spec, ctx):
         r, dec, ferr = specrun.write_and_decode(spec, ctx)
@@ -102,8 +111,8 @@ class C05(Property):
                                                              for op in lf['ops'])})
 
     def self_check(self, merged, tier):
-        if tier != 'thorough':
-            return []      # the quick tier reports the counts in the evidence; only the thorough tier demands all
+        # quick tier: every (method, keyword) through at least one route (the per-type strata make that independent of
+        # luck: the rarest keyword is seen > 10 times); thorough tier: through every route
         have = merged['extra']
         missing = []
         for k, t in TYPES.items():
